@@ -8,6 +8,6 @@ require (
 	golang.org/x/text v0.21.0
 )
 
-require golang.org/x/net v0.34.0 // indirect
+require golang.org/x/net v0.34.0
 
 replace github.com/nlnwa/whatwg-url => /repo
